@@ -1,6 +1,7 @@
 package schema
 
 import (
+	"errors"
 	"fmt"
 	"math"
 	"regexp"
@@ -80,19 +81,12 @@ func formatNumber[T NumberType](amount T) string {
 		// Also for the negative zero of floats, which would be rendered with a sign the parser does not read.
 		return "0"
 	}
-	var formatString string
-	switch any(amount).(type) {
-	case int64:
-		formatString = "%d"
-	case float64:
-		formatString = "%f"
+	if float, isFloat := any(amount).(float64); isFloat {
+		// All the digits it takes to read the same number back, and no exponent: the parser reads digits and a decimal
+		// point. (The verb %f cuts everything below a millionth off: 400 nanoseconds in seconds came back as zero.)
+		return strconv.FormatFloat(float, 'f', -1, 64)
 	}
-	formatted := fmt.Sprintf(formatString, amount)
-	if strings.Contains(formatted, ".") {
-		// Only trim the zeros of the fractional part, then a dangling decimal point.
-		formatted = strings.TrimRight(strings.TrimRight(formatted, "0"), ".")
-	}
-	return formatted
+	return fmt.Sprint(amount)
 }
 
 func formatNumberUnitShort[T NumberType](amount T, unit *UnitDefinition, displayZero bool) string {
@@ -184,17 +178,15 @@ func (u *UnitsDefinition) FormatShortFloat(data float64) string {
 		return u.BaseUnit().FormatShortFloat(data, true)
 	}
 	remainder := data
+	whole := 0.0
 	output := ""
 	for _, multiplier := range u.getSortedMultipliersCache() {
-		base := int64(math.Floor(remainder / float64(multiplier)))
-		if float64(base*multiplier) > remainder {
-			// The quotient was rounded up to the next whole number (amounts above 2^53); the rest must not go negative.
-			base--
-		}
-		remainder -= float64(base * multiplier)
-		output += u.Multipliers()[multiplier].FormatShortFloat(float64(base), false)
+		var base float64
+		base, remainder = splitUnitFloat(remainder, multiplier)
+		whole += base * float64(multiplier)
+		output += u.Multipliers()[multiplier].FormatShortFloat(base, false)
 	}
-	output += u.BaseUnit().FormatShortFloat(remainder, false)
+	output += u.BaseUnit().FormatShortFloat(shortestRest(whole, remainder, data), false)
 	return output
 }
 
@@ -220,18 +212,53 @@ func (u *UnitsDefinition) FormatLongFloat(data float64) string {
 		return u.BaseUnitValue.FormatLongFloat(data, true)
 	}
 	remainder := data
+	whole := 0.0
 	output := ""
 	for _, multiplier := range u.getSortedMultipliersCache() {
-		base := int64(math.Floor(remainder / float64(multiplier)))
-		if float64(base*multiplier) > remainder {
-			// The quotient was rounded up to the next whole number (amounts above 2^53); the rest must not go negative.
-			base--
-		}
-		remainder -= float64(base * multiplier)
-		output += u.Multipliers()[multiplier].FormatLongFloat(float64(base), false)
+		var base float64
+		base, remainder = splitUnitFloat(remainder, multiplier)
+		whole += base * float64(multiplier)
+		output += u.Multipliers()[multiplier].FormatLongFloat(base, false)
 	}
-	output += u.BaseUnit().FormatLongFloat(remainder, false)
+	output += u.BaseUnit().FormatLongFloat(shortestRest(whole, remainder, data), false)
 	return output
+}
+
+// shortestRest is the number with the fewest decimals that, added to the whole units the way the parser adds them up,
+// gives the amount again: 305.1 seconds are 5 minutes and 5.1 seconds, although 305.1 - 300 is 5.100000000000023 in
+// floating point arithmetic.
+func shortestRest(whole float64, rest float64, amount float64) float64 {
+	exact := strconv.FormatFloat(rest, 'f', -1, 64)
+	decimals := 0
+	if point := strings.IndexByte(exact, '.'); point >= 0 {
+		decimals = len(exact) - point - 1
+	}
+	for precision := 0; precision < decimals; precision++ {
+		candidate, err := strconv.ParseFloat(strconv.FormatFloat(rest, 'f', precision, 64), 64)
+		if err == nil && whole+candidate == amount {
+			return candidate
+		}
+	}
+	return rest
+}
+
+// splitUnitFloat is splitUnit for floats. The count stays a float: a quantity of 2^63 base units or more (1e19 bytes are
+// 8.7 EiB) has no int64 count, and converting it anyway gave an arbitrary number.
+func splitUnitFloat(amount float64, multiplier int64) (float64, float64) {
+	if multiplier < 2 || math.IsInf(amount, 0) || math.IsNaN(amount) {
+		return 0, amount
+	}
+	count := math.Floor(amount / float64(multiplier))
+	for count > 0 && count*float64(multiplier) > amount {
+		// The quotient was rounded up (amounts above 2^53); the rest must not go negative. The next count down is not
+		// one less up there: whole numbers are 2, 4, 8... apart.
+		if count < 1<<53 {
+			count--
+		} else {
+			count = math.Nextafter(count, 0)
+		}
+	}
+	return count, amount - count*float64(multiplier)
 }
 
 // splitUnit returns how many whole units of the given multiplier are in the amount (rounded down) and what is left.
@@ -345,26 +372,30 @@ func (u *UnitsDefinition) handleParseMultiplier(
 		isFloat = true
 	} else {
 		i, err := strconv.ParseInt(result, 10, 64)
-		if err != nil {
+		if err != nil && !errors.Is(err, strconv.ErrRange) {
 			return intNumber, floatNumber, isFloat, BadArgumentError{
 				Message: fmt.Sprintf("Failed to parse number as int: %s", result),
 			}
 		}
-		if multiplier > 0 && i > math.MaxInt64/multiplier {
-			return intNumber, floatNumber, isFloat, UnitParseError{
-				Message: fmt.Sprintf("Number %s with multiplier %d does not fit in 64 bits", result, multiplier),
+		if err == nil && !(multiplier > 0 && i > math.MaxInt64/multiplier) {
+			product := i * multiplier
+			if isFloat {
+				return intNumber, floatNumber + float64(product), isFloat, nil
+			}
+			if !(product > 0 && intNumber > math.MaxInt64-product) {
+				return intNumber + product, floatNumber + float64(product), isFloat, nil
 			}
 		}
-		product := i * multiplier
-		floatNumber += float64(product)
-		if !isFloat {
-			if product > 0 && intNumber > math.MaxInt64-product {
-				return intNumber, floatNumber, isFloat, UnitParseError{
-					Message: fmt.Sprintf("Sum of units does not fit in 64 bits at %s", result),
-				}
+		// A whole number that does not fit in 64 bits (on its own, with its multiplier, or in the sum): it is still a
+		// number, which a float can hold (the float formatters write such counts: 1e19 bytes are 8.7 EiB). ParseInt
+		// refuses the result, as it is not an integer.
+		count, err := strconv.ParseFloat(result, 64)
+		if err != nil {
+			return intNumber, floatNumber, isFloat, BadArgumentError{
+				Message: fmt.Sprintf("Failed to parse number as float: %s", result),
 			}
-			intNumber += product
 		}
+		return intNumber, floatNumber + count*float64(multiplier), true, nil
 	}
 	return intNumber, floatNumber, isFloat, nil
 }
@@ -461,6 +492,11 @@ func (u *UnitsDefinition) ParseInt(data string) (int64, error) {
 	}
 	if i, ok := result.(int64); ok {
 		return i, nil
+	}
+	if !strings.Contains(data, ".") {
+		return 0, UnitParseError{
+			Message: fmt.Sprintf("%s does not fit in 64 bits", data),
+		}
 	}
 	return 0, BadArgumentError{
 		Message: fmt.Sprintf("Failed to parse %s as an integer, float found.", data),
